@@ -146,6 +146,8 @@ func runCase(c string) string {
 		return runScFile(f)
 	case "phoutq":
 		return runPhoutQ(f)
+	case "engine":
+		return runEngine(f)
 	case "hscen":
 		return runHScen(f)
 	case "gshoot":
@@ -283,6 +285,7 @@ func gen(r *vh.Rand, tier string) []string {
 	out = append(out, genCfgGuns(r, tier)...)
 	out = append(out, genAmmo(r, tier)...)
 	out = append(out, genRun(r, tier)...)
+	out = append(out, genEngine(r, tier)...)
 	return out
 }
 
